@@ -32,11 +32,13 @@ def Kind.dedicated : Kind → Bool
 
 inductive SFn where
   | body (b : Body)
+  | gen (g : GenBody)
   | bound (self : Nat) (inner : SFn)
   | layer (k : Kind) (p : Params) (inner : SFn)
 
 def SFn.bodyIsCoro : SFn → Bool
   | .body b => b.isCoro
+  | .gen _ => false
   | .bound _ i => i.bodyIsCoro
   | .layer _ _ i => i.bodyIsCoro
 
@@ -44,11 +46,13 @@ def SFn.bodyIsCoro : SFn → Bool
     itself); the others return a plain function -/
 def SFn.isCoro : SFn → Bool
   | .body b => b.isCoro
+  | .gen _ => false
   | .bound _ i => i.isCoro
   | .layer k _ i => if k = .overrides then i.isCoro else k.dedicated && i.isCoro
 
 def SFn.nCounters : SFn → Nat
   | .body _ => 0
+  | .gen _ => 0
   | .bound _ i => i.nCounters
   | .layer k _ i => (if k = .countCalls then 1 else 0) + i.nCounters
 
@@ -92,9 +96,16 @@ def specRename (rules : List (Nat × Nat)) : List (Nat × Nat) → List (Nat × 
   | acc, [] => acc
   | acc, (k, v) :: rest => specRename rules (dictSet (renameKey rules k) v acc) rest
 
+/-- calling a generator function: the arguments are bound, a generator object comes back, nothing has run -/
+def specGenCall (g : GenBody) (a : Args) (w : World) : SOut :=
+  match bind g.sig a with
+  | none => ⟨.exc (.lib "TypeError"), [], 0, [], false, w, false⟩
+  | some _ => ⟨.gen, [], 0, [], false, w, false⟩
+
 /-- `nSelf`: how many leading positional arguments were bound by attribute access (the instance) -/
 def spec : SFn → Nat → Args → World → SOut
   | .body b, _, a, w => specBody b a w
+  | .gen g, _, a, w => specGenCall g a w
   | .bound s i, n, a, w => spec i (n + 1) { a with pos := s :: a.pos } w
   | .layer k p i, n, a, w =>
     match k with
@@ -130,7 +141,50 @@ def spec : SFn → Nat → Args → World → SOut
                 if u.cls = v.cls then { r with w := { r.w with oinv := r.w.oinv + 1 } }
                 else { r with res := .exc (.lib "AssertionError"), w := { r.w with oinv := r.w.oinv + 1 } }
               | .exc _ _ => { r with unspec := true, w := { r.w with oinv := r.w.oinv + 1 } }    -- "when both agree": other raising is not covered
+        | .gen => { r with unspec := true }            -- two generator objects never compare equal: nothing to agree on
         | _ => r
+
+/-! ### Generator functions under the decorators
+
+"Do not alter the observable behaviour of the decorated callable": the caller of a decorated generator function holds a generator it
+can drive exactly like the one the undecorated function hands out — every `send` value and every thrown exception reaches the body,
+`close` closes it, the `return` value comes back.  The specification names the generator the caller must end up driving: the decorated
+function's own, with the caller's (renamed) arguments bound; `none`: the call hands out no generator (TypeError, mock, unimplemented). -/
+
+/-- which generator body, with which bound arguments, the caller of the stack must end up driving -/
+def specGenTarget : SFn → Args → Option (GenBody × Bound)
+  | .body _, _ => none
+  | .gen g, a => (bind g.sig a).map (fun bd => (g, bd))
+  | .bound s i, a => specGenTarget i { a with pos := s :: a.pos }
+  | .layer k p i, a =>
+    match k with
+    | .mock | .unimplemented => none
+    | .renameKwargs => specGenTarget i { a with kw := specRename p.renames [] a.kw }
+    | _ => specGenTarget i a
+
+/-- what driving the result of the call shows, and what the body of the generator notes down meanwhile -/
+def specDrive (f : SFn) (a : Args) (ops : List GenOp) (w : World) : Option (List GenObs × List Ev × World) :=
+  (specGenTarget f a).map (fun gb => genRun gb.1 .wrapped gb.2 .fresh ops w)
+
+/-! ### Property members of a class under `trace_class` / `timer_class`
+
+Written from the property text: the decorated class behaves like the undecorated one — reading calls the getter with the instance,
+assigning the setter with the instance and the value, `del` the deleter with the instance; an accessor the property does not have
+is an AttributeError, before and after. -/
+
+def specPropAccess (fget fset fdel : Option Body) (self : Nat) (op : PropOp) (w : World) : SOut :=
+  let slot : Option Body := match op with
+    | .get => fget
+    | .set _ => fset
+    | .del => fdel
+  match slot with
+  | none => ⟨.exc (.lib "AttributeError"), [], 0, [], false, w, false⟩
+  | some b =>
+    let r := specBody b (match op with | .get => ⟨[self], []⟩ | .set v => ⟨[self, v], []⟩ | .del => ⟨[self], []⟩) w
+    match op, r.res with
+    | .get, _ => r
+    | _, .exc _ => r
+    | _, _ => { r with res := .none }
 
 /-! ### Re-entrant calls (recursion, callbacks): what the UNDECORATED function does, and how many calls were made
 
@@ -165,24 +219,27 @@ def specReent (b : Body) (plan : Nat → List Args) : Nat → Args → World →
         let r := specPlan (specReent b plan k) (plan i) w1
         ⟨outcTag (b.script i), .body .wrapped i bd :: r.1, 1 + r.2.1, r.2.2⟩
 
-/-- "the base class lacks the name": the name is not among the names the class lists as its own — by default the names
-    bound in its class body or in the body of one of its ancestors (whatever object is bound there: a method, a property,
-    `None`, `0`, …); what merely the *metaclass* binds or answers (`mro`, `__call__`, a `__getattr__` hook) is not a name of
-    the class.  A metaclass that overrides `__dir__` states the listing itself. -/
-def LacksName (c : ClassDesc) (n : Nat) : Prop :=
-  match c.dirOverride with
-  | some listing => n ∉ listing
-  | none => ∀ body ∈ c.mro, ∀ m ∈ body, m.name ≠ n
+/-- "the base class lacks the name": no class body along its MRO — its own or an ancestor's — binds the name (whatever object is
+    bound there: a method, a property, `None`, `0`, …); what merely the *metaclass* binds or answers (`mro`, `__call__`, a `__getattr__`
+    hook) is not a name of the class.  A class whose metaclass overrides `__dir__` states a listing of its own: the property text does
+    not say whether that listing or the class bodies decide there — such classes are left unspecified (`overridesUnspec`), only the
+    correspondence between model and implementation is checked for them. -/
+def LacksName (c : ClassDesc) (n : Nat) : Prop := ∀ body ∈ c.mro, ∀ m ∈ body, m.name ≠ n
 
 /-- the same, executable -/
-def hasName (c : ClassDesc) (n : Nat) : Bool :=
-  match c.dirOverride with
-  | some listing => listing.any (fun k => k == n)
-  | none => c.mro.any (fun body => body.any (fun m => m.name == n))
+def hasName (c : ClassDesc) (n : Nat) : Bool := c.mro.any (fun body => body.any (fun m => m.name == n))
+
+/-- some `overrides` layer of the stack names a class that states its own `dir()` listing: decoration is not specified -/
+def overridesUnspec : SFn → Bool
+  | .body _ => false
+  | .gen _ => false
+  | .bound _ i => overridesUnspec i
+  | .layer k p i => (k == .overrides && p.base.dirOverride.isSome) || overridesUnspec i
 
 /-- applying the decorators, innermost first: `overrides` fails iff the base class lacks the name -/
 def specDecorate : SFn → Option Exc
   | .body _ => none
+  | .gen _ => none
   | .bound _ i => specDecorate i
   | .layer k p i =>
     match specDecorate i with
@@ -198,6 +255,7 @@ def specHistory (f : SFn) (n : Nat) : List Args → World → List SOut
 /-- coroutine-ness the property promises: kept when every layer is of the dedicated group (or is `overrides`) -/
 def SFn.allDedicated : SFn → Bool
   | .body _ => true
+  | .gen _ => true
   | .bound _ i => i.allDedicated
   | .layer k _ i => (k.dedicated || k = .overrides) && i.allDedicated
 
